@@ -209,6 +209,9 @@ def programG (cfg : Cfg) : G Program := do
     pure ((ids.filter (· < 256)).eraseDups)
   let palIds : List Nat :=
     if hasNewPal then (List.range palCount).map (· + palFirst) else legacyIds
+  -- palette chunks may sit in a later frame (the last palette decoded is the sprite's)
+  let newPalLate ← if nFrames > 1 then chance 1 5 else pure false
+  let oldPalLate ← if nFrames > 1 && !hasNewPal then chance 1 5 else pure false
   -- tilesets
   let nTilesets ← if cfg.tilesets then (do if ← chance 1 2 then range 1 2 else pure 0) else pure 0
   let bpp := bppOf depth
@@ -279,10 +282,10 @@ def programG (cfg : Cfg) : G Program := do
         if ← chance 1 2 then
           chunks := chunks ++ [⟨.colorProfile (UInt16.ofNat (← below 2)) (UInt16.ofNat ((← below 100) * 2)) (← u32) (← bytesN 8), ← padG pad⟩]
       let palFirstOrder ← chance 1 2
-      if hasOldPal && palFirstOrder then
+      if hasOldPal && palFirstOrder && !oldPalLate then
         chunks := chunks ++ [⟨oldPal, ← padG pad⟩] ++ (← maybeUD cfg pad)
-      if hasNewPal then chunks := chunks ++ [⟨newPal, ← padG pad⟩]
-      if hasOldPal && !palFirstOrder then
+      if hasNewPal && !newPalLate then chunks := chunks ++ [⟨newPal, ← padG pad⟩]
+      if hasOldPal && !palFirstOrder && !oldPalLate then
         chunks := chunks ++ [⟨oldPal, ← padG pad⟩] ++ (← maybeUD cfg pad)
       if cfg.extFiles then
         if ← chance 1 4 then
@@ -325,6 +328,18 @@ def programG (cfg : Cfg) : G Program := do
                   (← i32, ← i32)))
           chunks := chunks ++ [⟨.slice ⟨UInt32.ofNat (flags + hi), ← u32, ← nameG, keys⟩, ← padG pad⟩]
                       ++ (← maybeUD cfg pad)
+    if f == 1 then
+      if hasNewPal && newPalLate then chunks := chunks ++ [⟨newPal, ← padG pad⟩]
+      if hasOldPal && oldPalLate then
+        chunks := chunks ++ [⟨oldPal, ← padG pad⟩] ++ (← maybeUD cfg pad)
+    -- a tags chunk outside the first frame is ignored (and does not touch the user-data context)
+    let lateTags ← if f != 0 && cfg.tags then chance 1 8 else pure false
+    let lateTagsFirst ← chance 1 2
+    let lateTagChunk : List ChunkSpec ← if lateTags then (do
+        let ts ← (List.range (← range 1 2)).mapM (fun _ => do
+          pure (TagSpec.mk (← u16) (← u16) (UInt8.ofNat (← below 3)) (← u16) (← bytesN 6) (← u32) (← nameG)))
+        pure [ChunkSpec.mk (.tags (← bytesN 8) ts) (← padG pad)]) else pure []
+    if lateTagsFirst then chunks := chunks ++ lateTagChunk
     if f != 0 && cfg.extFiles then
       if ← chance 1 10 then
         let id ← below 6
@@ -359,8 +374,9 @@ def programG (cfg : Cfg) : G Program := do
               ((celKinds[g]!)[l]! == 1 || (celKinds[g]!)[l]! == 2))
             pure (CelBody.linked (UInt16.ofNat (← pick targets)))
           else do
-            let cw ← range 1 (w + 3)
-            let chh ← range 1 (h + 3)
+            -- rarely a cel without pixels (a zero dimension is allowed)
+            let cw ← if ← chance 1 25 then pure 0 else range 1 (w + 3)
+            let chh ← if ← chance 1 25 then pure 0 else range 1 (h + 3)
             let px ← pixelsG depth palIds (cw * chh)
             pure (CelBody.image (UInt16.ofNat cw) (UInt16.ofNat chh) px
                     (if kind == 2 then some (Zlib.deflateStored px) else none)))
@@ -382,7 +398,10 @@ def programG (cfg : Cfg) : G Program := do
           else pure [])
         celGroups := celGroups ++ [[cel] ++ extra ++ (← maybeUD cfg pad)]
     let shuffled ← if cfg.permuteCels then shuffle celGroups else pure celGroups
-    chunks := chunks ++ shuffled.flatten
+    -- the late tags chunk in the middle of the cel chunks (chunks must keep being read after it)
+    let flat := shuffled.flatten
+    let cut ← below (flat.length + 1)
+    chunks := chunks ++ (if lateTagsFirst then flat else flat.take cut ++ lateTagChunk ++ flat.drop cut)
     let oldOnly ← chance 1 2
     let slack ← if ← chance 1 4 then below 1000 else pure 0
     frames := frames.push ⟨← pick [0, 1, 100, 65535, (← u16)], oldOnly, ← u16, ← u16,
@@ -469,7 +488,13 @@ def blendProgramTiles (mode lop cop w h : Nat) (back src : List RGBA) : Program 
 
 def blendPixelsG (n : Nat) : G (List RGBA × List RGBA) := do
   let back ← (List.range n).mapM (fun _ => blendPixel)
-  let src ← (List.range n).mapM (fun _ => blendPixel)
+  -- every sixth source is the backdrop itself, opaque or with its own alpha (a layer duplicated
+  -- over itself: equal luminosity / saturation on both sides of the non-separable modes)
+  let src ← back.mapM (fun b => do
+    let k ← below 12
+    if k == 0 then pure b
+    else if k == 1 then pure { b with a := 255 }
+    else blendPixel)
   pure (back, src)
 
 end Ase.Gen
